@@ -130,6 +130,14 @@ def gen_scenario(rng):
         sc["extra_outputs"] = [{"at": rng.choice([2.0, 6.0, 11.0])} for _ in range(rng.randint(1, 2))]
     if rng.random() < 0.1:
         sc["ext_kill_at"] = rng.choice([5.0, 15.0])
+    if sc["kill_delay"] is not None and rng.random() < 0.6:
+        # the kill delay expires while an execution is still running, on a backend whose kill() returns slowly
+        lat = rng.choice([0.0, 0.5, 1.0])
+        sc["obs_script"] = [dict(e, duration=rng.choice([6.0, 9.0, 15.0]), kill_latency=lat) if "reason" in e else e
+                            for e in sc["obs_script"]]
+        sc["obs_tail"] = dict(sc["obs_tail"], duration=rng.choice([6.0, 9.0]), kill_latency=lat) \
+            if "reason" in sc["obs_tail"] else sc["obs_tail"]
+        sc["first_output"] = {"at": 0.3}
     return sc
 
 
